@@ -5,7 +5,7 @@ from symx.api import *
 PROPERTY = 'C15'
 LEVEL = 'other'
 FILES = ['mesonbuild/mintro.py', 'mesonbuild/backend/backends.py', 'mesonbuild/backend/ninjabackend.py', 'mesonbuild/utils/core.py', 'mesonbuild/minstall.py', 'mesonbuild/options.py']
-ENCODED = ['mintro.get_test_list', 'Backend.create_test_serialisation (on stub targets; called twice, as setup does: once for mtest, once for mintro)', 'EnvironmentVariables.set/prepend/get_env',
+ENCODED = ['build.Executable / StaticLibrary.__init__ (classification of install_dir), BuildTarget.install_dir_names', 'Backend.generate_subdir_install', 'mintro.get_test_list', 'Backend.create_test_serialisation (on stub targets; called twice, as setup does: once for mtest, once for mintro)', 'EnvironmentVariables.set/prepend/get_env',
            'mintro.list_install_plan', 'mintro.list_installed', 'minstall.get_destdir_path / Installer.should_install (the consumer side)', 'mintro._list_buildoptions',
            'OptionStore.get_value_for', 'targets-vs-ninja: Interpreter.run + NinjaBackend.generate + mintro.list_targets / list_installed / Backend.get_introspection_data on generated projects without a compiled language (harness/proj.py)']
 EXPLANATION = ('Relational checks between what the introspection writers emit and what the consumers use, on symbolic data: (tests) the real create_test_serialisation runs twice on the same '
@@ -15,7 +15,7 @@ EXPLANATION = ('Relational checks between what the introspection writers emit an
                'computes and the tag it selects on, and nothing else is listed. (options) every reported value equals OptionStore.get_value_for.')
 ASSUMPTIONS = ['backend.create_install_data() and Build.get_tests() are stubs returning symbolic entries ("whatever the backend produced")', 'targets are stub Executable / SharedLibrary objects',
                'native, non-Windows host']
-OUT = 'intro-targets.json for COMPILED targets (needs a compiler; custom / alias / run targets are decided against build.ninja), option files in intro-buildsystem_files.json, intro-dependencies.json, benchmarks go through the same code as tests'
+OUT = 'intro-targets.json for COMPILED targets (needs a compiler; custom / alias / run targets are decided against build.ninja; the install entry of an executable / static library made of one object file is decided by install-build-target), option files in intro-buildsystem_files.json, intro-dependencies.json, benchmarks go through the same code as tests'
 MANIFEST = dict(
     text='Bounded symbolic relational check of three projections (tests, install plan, build options) between the introspection writers and their consumers, incl. the real Backend.generate_*_install name/path pairs and subproject option values. '
          'intro-targets.json / intro-installed.json are compared with the build.ninja of the same configuration for generated projects without a compiled language; compiled targets are outside.',
